@@ -90,13 +90,13 @@ Proof. vm_compute. reflexivity. Qed.
    accept_laws O (RoundTrip.v) = the three strconv.Quote laws plus: every time returned by time.Parse formats to a
    non-empty text over 0-9 T : . Z + - that parses back to the same instant and offset; every float returned by ParseFloat
    (NaN included) prints to text that parses back to the same bits.  Sampled on every run. *)
-From BWValues Require Import RoundTrip AcceptStable.
+From BWValues Require Import RoundTrip AcceptStable TimeCodec TimeCodecProofs Instance.
 
 Theorem C15_accept_stable : forall (O : oracles), accept_laws O -> forall s : str,
   (forall n, parse_node s = Ok n -> parse_node (print_node n) = Ok n) /\
-  (forall p, parse_pred O s = Ok p -> parse_pred O (print_pred O p) = Ok p) /\
+  (forall p, parse_pred O s = Ok p -> anchor_printable p = true -> parse_pred O (print_pred O p) = Ok p) /\
   (forall l, parse_literal O s = Ok l -> parse_literal O (print_literal O l) = Ok l) /\
-  (forall o, parse_object O s = Ok o -> parse_object O (print_object O o) = Ok o).
+  (forall o, parse_object O s = Ok o -> object_printable o = true -> parse_object O (print_object O o) = Ok o).
 Proof.
   intros O A s. repeat split; intros v H.
   - exact (node_accept_stable s v H).
@@ -106,12 +106,31 @@ Proof.
 Qed.
 Print Assumptions C15_accept_stable.
 
-(* triples: FULL (after F4b).  The subject text of an accepted triple is exactly the printed subject and lies before the
+(* triples (after F4b): the subject text of an accepted triple is exactly the printed subject and lies before the
    first subject split, so the split is found again; the predicate id is skipped as a quoted string *)
 Theorem C15_accept_stable_triple : forall (O : oracles), accept_laws O -> forall s t,
-  parse_triple O s = Ok t -> parse_triple O (print_triple O t) = Ok t.
+  parse_triple O s = Ok t -> triple_printable t = true -> parse_triple O (print_triple O t) = Ok t.
 Proof. exact triple_accept_stable. Qed.
 Print Assumptions C15_accept_stable_triple.
+
+(* anchor_printable / object_printable / triple_printable (Dom.v): the zone offset of every accepted anchor is below 25 hours.
+   The condition is needed: time.Parse accepts a zone hour up to 24 AND a zone minute up to 60, so "+24:60" is accepted as
+   +25:00, which Format prints as "+25:00" and Parse rejects.  With the Go-faithful codec (TimeCodec.v, laws proved,
+   Instance.go_time_library) this is a closed counterexample, replayed on predicate.Parse by the check (finding C15-zone-2460) *)
+Theorem C15_accept_stable_zone_2460_refuted : exists s p,
+  parse_pred go_time_library s = Ok p /\ parse_pred go_time_library (print_pred go_time_library p) = Err.
+Proof.
+  exists (lit """a""@[2006-01-02T15:04:05+24:60]"), (mkPred (lit "a") (Some (mkTime 1136124245000000000 90000))).
+  split; vm_compute; reflexivity.
+Qed.
+Print Assumptions C15_accept_stable_zone_2460_refuted.
+
+(* and for that library the accept laws are theorems, so the stability statements hold without hypotheses about time *)
+Theorem C15_accept_stable_go_time : forall s p,
+  parse_pred go_time_library s = Ok p -> anchor_printable p = true ->
+  parse_pred go_time_library (print_pred go_time_library p) = Ok p.
+Proof. exact (pred_accept_stable go_time_library go_time_library_accept_laws). Qed.
+Print Assumptions C15_accept_stable_go_time.
 
 (* the witness that refuted the full statement before F4b (an id containing ']' blank '/' reached through \x20)
    is now accepted and stable.  Library answers as a table: Unquote of the escaped form, Quote of the id. *)
